@@ -248,12 +248,228 @@ fn mode_histories(seed: u64, thorough: bool) {
     }
 }
 
+
+// ------------------------------------------------------------------------------------------
+// Generic replicas with loop updates: XXZ ring with Ising anisotropy (non-zero bounce weight)
+// ------------------------------------------------------------------------------------------
+use rand::{Error, RngCore};
+use std::cell::RefCell;
+use std::rc::Rc;
+
+/// sampler RNG whose words stay readable from outside (the sampler owns its RNG)
+struct SRng(Rc<RefCell<RecRng>>);
+impl RngCore for SRng {
+    fn next_u32(&mut self) -> u32 {
+        self.0.borrow_mut().next_u32()
+    }
+    fn next_u64(&mut self) -> u64 {
+        self.0.borrow_mut().next_u64()
+    }
+    fn fill_bytes(&mut self, dest: &mut [u8]) {
+        self.0.borrow_mut().fill_bytes(dest)
+    }
+    fn try_fill_bytes(&mut self, dest: &mut [u8]) -> Result<(), Error> {
+        self.0.borrow_mut().try_fill_bytes(dest)
+    }
+}
+
+/// two-site XXZ matrix indexed by (outs ++ ins): aligned diagonal `al`, anti-aligned diagonal `an`, exchange `ex`
+fn xxz_matrix(al: f64, an: f64, ex: f64) -> Vec<f64> {
+    let mut m = vec![0.0; 16];
+    m[0b0000] = al;
+    m[0b1111] = al;
+    m[0b0101] = an;
+    m[0b1010] = an;
+    m[0b0110] = ex;
+    m[0b1001] = ex;
+    m
+}
+
+fn xxz_calls(g: &mut SplitMix64, nsites: usize) -> Vec<(Vec<f64>, Vec<usize>)> {
+    // Ising anisotropy: the anti-aligned diagonal weight exceeds the exchange
+    let al = g.range(1, 2) as f64 / 4.0;
+    let an = g.range(4, 7) as f64 / 4.0;
+    let ex = g.range(1, 3) as f64 / 4.0;
+    (0..nsites).map(|i| (xxz_matrix(al, an, ex), vec![i, (i + 1) % nsites])).filter(|(_, v)| v[0] != v[1]).collect()
+}
+
+fn calls_token(calls: &[(Vec<f64>, Vec<usize>)]) -> String {
+    calls.iter().map(|(m, v)| format!("new:{}:{}", rats(m), list(v))).collect::<Vec<_>>().join("!")
+}
+
+/// Long directed loops, one at a time, on the real sampler with a recording RNG: every loop update of a cold
+/// XXZ chain is checked for closed world lines; loops with many vertex visits (beyond any budget of the form
+/// c * (op, variable) pairs + const for small c) are replayed exactly by the Lean loop model (driver drv_c04,
+/// protocol line `loop <calls> <state> <slots> <words>`).
+fn mode_loops(seed: u64, thorough: bool) {
+    let mut g = SplitMix64::new(seed ^ 0x100b);
+    let chains = if thorough { 12 } else { 4 };
+    let sweeps = if thorough { 6000 } else { 2500 };
+    for c in 0..chains {
+        let nsites = 4 + (c % 2) as usize * 2;
+        let calls = xxz_calls(&mut g, nsites);
+        let tok = calls_token(&calls);
+        let h = Rc::new(RefCell::new(RecRng::new(g.next())));
+        let state: Vec<bool> = (0..nsites).map(|i| i % 2 == 0).collect();
+        let mut q: Qmc<SRng, qmc::sse::fast_ops::FastOps> = Qmc::new_with_state(nsites, SRng(h.clone()), state, true);
+        let mut bad = false;
+        for (m, v) in &calls {
+            if q.make_interaction(m.clone(), v.clone()).is_err() {
+                bad = true;
+            }
+        }
+        if bad {
+            continue;
+        }
+        let beta = [1.5, 2.0, 3.0, 4.0][(c % 4) as usize];
+        let mut emitted_long = 0;
+        let mut max_visits = 0usize;
+        let mut over_budget = 0u64;
+        for sweep in 0..sweeps {
+            if catch(|| {
+                q.diagonal_update(beta);
+                q.flip_free_bits();
+            })
+            .is_err()
+            {
+                stat("loops.diagonal_update_panicked", 1);
+                break;
+            }
+            let before_state = q.state_ref().to_vec();
+            let before_slots = show_slots(q.get_manager_ref());
+            let pairs: usize = {
+                let m = q.get_manager_ref();
+                (0..m.get_cutoff()).filter_map(|p| m.get_pth(p).map(|o| o.get_vars().len())).sum()
+            };
+            h.borrow_mut().take_log();
+            let r = catch(|| q.loop_update());
+            let log = h.borrow_mut().take_log();
+            let visits = log.len().saturating_sub(3);
+            max_visits = max_visits.max(visits);
+            let budget = 4 * pairs + 16;
+            if visits > budget {
+                over_budget += 1;
+            }
+            let after_state = q.state_ref().to_vec();
+            let after_slots = show_slots(q.get_manager_ref());
+            let cons = r.is_ok() && propagate_check(q.get_manager_ref(), &after_state).map(|f| f == after_state).unwrap_or(false);
+            let long = visits > 3 * pairs + 8 && emitted_long < 25;
+            if !cons || long || sweep % 500 == 499 {
+                let input = format!("loop {} {} {} {}", tok, bits(&before_state), before_slots, list(&log));
+                let oracle = if let Err(p) = &r {
+                    Err(format!("loop_update panicked: {}", p))
+                } else if !cons {
+                    Err(format!(
+                        "after a loop update of {} vertex visits on a string with {} (op, variable) pairs the world lines no longer close (sweep {}, beta {})",
+                        visits, pairs, sweep, beta
+                    ))
+                } else {
+                    Ok(())
+                };
+                emit(true, &input, &format!("{} {} ok c={} hyp=1", bits(&after_state), after_slots, cons as u8), Some(oracle));
+                if long {
+                    emitted_long += 1;
+                }
+            }
+            if !cons {
+                break;
+            }
+        }
+        stat("loops.chains", 1);
+        stat("loops.loops_beyond_4pairs_plus_16_visits", over_budget);
+        stat(&format!("loops.max_visits_chain_{}", c), max_visits as u64);
+    }
+}
+
+/// A beta ladder of XXZ replicas with loop updates on, many rounds of time step + tempering step; after EVERY
+/// round every replica must have closed world lines and a legal string, so that no broken configuration can
+/// travel through the ladder. Model: the final configurations are checked with the model's `Consistent`.
+fn mode_xxz_ladder(seed: u64, thorough: bool) {
+    let mut g = SplitMix64::new(seed ^ 0x1add);
+    let ladders = if thorough { 6 } else { 2 };
+    let rounds = if thorough { 30000 } else { 9000 };
+    for l in 0..ladders {
+        let nsites = 4 + 2 * (l % 2) as usize;
+        let calls = xxz_calls(&mut g, nsites);
+        let betas: Vec<f64> = if l % 2 == 0 { vec![0.5, 1.5, 4.0, 6.0] } else { vec![0.75, 1.5, 2.5, 4.0] };
+        let inters: Vec<(bool, Vec<f64>, Vec<usize>)> = calls.iter().map(|(m, v)| (false, m.clone(), v.clone())).collect();
+        let reps: Result<Vec<(GenQ, f64)>, String> = betas
+            .iter()
+            .map(|b| {
+                let s = GenSpec { nvars: nsites, inters: inters.clone(), beta: *b, loops: true, heatbath: false };
+                make_gen(&s, g.next()).map(|q| (q, *b))
+            })
+            .collect();
+        let reps = match reps {
+            Ok(r) => r,
+            Err(_) => continue,
+        };
+        let log = new_log();
+        let mut tc = match build(reps, &log) {
+            Ok(t) => t,
+            Err(_) => continue,
+        };
+        *tc.rng_mut() = RecRng::new(g.next());
+        let check = |tc: &TC<GenQ>| -> Option<(usize, String)> {
+            for (i, (q, _)) in tc.graph_ref().iter().enumerate() {
+                let st = q.q.state_ref().to_vec();
+                let closed = propagate_check(q.q.get_manager_ref(), &st).map(|f| f == st).unwrap_or(false);
+                if !closed {
+                    return Some((i, "world lines do not close".to_string()));
+                }
+                if let Err(m) = replica_sound(&q.q) {
+                    return Some((i, m));
+                }
+            }
+            None
+        };
+        let mut oracle: Result<(), String> = Ok(());
+        for round in 0..rounds {
+            if let Err(p) = catch(|| tc.timesteps(1)) {
+                oracle = Err(format!("round {}: time step panicked: {}", round, p));
+                break;
+            }
+            if let Some((i, why)) = check(&tc) {
+                oracle = Err(format!("round {}: after the time steps, position {} (beta {}): {}", round, i, betas[i], why));
+                break;
+            }
+            if round % 2 == 1 {
+                if let Err(p) = catch(|| tc.tempering_step()) {
+                    oracle = Err(format!("round {}: tempering step panicked: {}", round, p));
+                    break;
+                }
+                if let Some((i, why)) = check(&tc) {
+                    oracle = Err(format!("round {}: after the tempering step, position {}: {}", round, i, why));
+                    break;
+                }
+            }
+        }
+        let finals: Vec<String> = tc.graph_ref().iter().map(|(q, _)| format!("{} {}", bits(q.q.state_ref()), q.q.slots())).collect();
+        let closed: String = tc
+            .graph_ref()
+            .iter()
+            .map(|(q, _)| {
+                let st = q.q.state_ref().to_vec();
+                if propagate_check(q.q.get_manager_ref(), &st).map(|f| f == st).unwrap_or(false) { '1' } else { '0' }
+            })
+            .collect();
+        stat("xxz.ladders", 1);
+        stat("xxz.total_swaps", tc.get_total_swaps());
+        stat("xxz.max_n", tc.graph_ref().iter().map(|(q, _)| q.q.get_n()).max().unwrap_or(0) as u64);
+        emit(true, &format!("cons {}", finals.join(" ")), &closed, Some(oracle));
+    }
+}
+
 fn main() {
     quiet_panics();
     let a = args();
     let r = catch(|| {
         if a.mode == "grow" {
             mode_grow(a.seed ^ 0x505, a.thorough)
+        } else if a.mode == "loops" {
+            mode_loops(a.seed, a.thorough)
+        } else if a.mode == "xxz" {
+            mode_xxz_ladder(a.seed, a.thorough)
         } else if a.mode == "gmixed" {
             mode_generic_mixed(a.seed ^ 0x505, a.thorough)
         } else {
